@@ -5,6 +5,9 @@ import (
 	"os"
 
 	"github.com/gogpu/naga"
+	"github.com/gogpu/naga/glsl"
+	"github.com/gogpu/naga/hlsl"
+	"github.com/gogpu/naga/msl"
 	"github.com/gogpu/naga/spirv"
 )
 
@@ -25,4 +28,15 @@ func main() {
 	fmt.Println("VALIDATE:", ve, err)
 	_, err = naga.GenerateSPIRV(m, spirv.Options{Version: spirv.Version1_3})
 	fmt.Println("SPIRV:", err)
+	_, _, err = hlsl.Compile(m, hlsl.DefaultOptions())
+	fmt.Println("HLSL:", err)
+	_, _, err = msl.Compile(m, msl.DefaultOptions())
+	fmt.Println("MSL:", err)
+	for _, ep := range m.EntryPoints {
+		o := glsl.DefaultOptions()
+		o.LangVersion = glsl.Version{Major: 4, Minor: 50}
+		o.EntryPoint = ep.Name
+		_, _, err = glsl.Compile(m, o)
+		fmt.Println("GLSL", ep.Name, ":", err)
+	}
 }
